@@ -35,7 +35,7 @@ func execConnStall(toks []string) string {
 			theConn.Store(c)
 			got <- c
 		case 2:
-			panic("scripted handler panic")
+			scriptedPanic()
 		case 3: // connection B's request
 			got <- c
 		}
